@@ -204,6 +204,8 @@ def ledger_attribute(ctx, exlines, badrel, module, cfg):
     """a datagram that arrived although the deletion of its authority had been announced before it was sent"""
     import json as _json
     ev = _json.loads(exlines[badrel])
+    if ev.get("e") == "Unserved":   # a request of the owner that got no answer in 5 s: the server stopped serving
+        return {"unserved:%s" % ev.get("what")}, {"C15", "C18", "C09"}
     at = ev.get("at")
     own = {"C02", "C15"} if at == "client" else {"C01", "C15"}
     if str(ev.get("id", ""))[1:3] == "z-":   # the last phase: after the Refresh(0) success was in the client's hands
@@ -229,6 +231,37 @@ def clientconn_attribute(ctx, exlines, badrel, module, cfg):
     import json as _json
     ev = _json.loads(exlines[badrel]).get("e")
     return {ev}, ({"C13", "C05"} if ev in ("ChanData", "SendInd", "Read") else {"C13"})
+
+
+def relaytcp_attribute(ctx, exlines, badrel, module, cfg):
+    """TraceRelayTCP.tla: which properties a rejected event of the end-to-end TCP relay contradicts"""
+    import json as _json
+    ev = _json.loads(exlines[badrel])
+    e = ev.get("e")
+    if e == "Inbound":
+        # handed to Accept without a permission / with a connection already there: C02, C16;
+        # not handed over although the application asked for the permission (and keeps its allocation): C14, C16
+        return {"Inbound:%s" % ("accepted" if ev.get("accepted") else "refused")}, ({"C02", "C16"} if ev.get("accepted") else {"C14", "C16"})
+    if e in ("Recv", "Settle", "Send"):
+        return {e}, {"C16", "C05"}
+    if e == "End":
+        return {e}, {"C16", "C15", "C14"}
+    if e == "Stuck":
+        return {e}, {"C16", "C18", "C09"}
+    return {str(e)}, {"C16"}
+
+
+def relaytcp(ctx):
+    n = 16 if ctx.tier == "quick" else 200
+    ctx.trace_validate("relaytcp", "TestRelayTCPTrace", "TraceRelayTCP.tla", "TraceRelayTCP.cfg", n, attribute=relaytcp_attribute)
+
+
+def with_relaytcp(run):
+    def f(ctx):
+        run(ctx)
+        if not ctx.violations:
+            relaytcp(ctx)
+    return f
 
 
 def c13_run(ctx):
@@ -271,6 +304,8 @@ def c14_run(ctx):
     ctx.model_check("KeepAlive.tla", "MC_keepaliveP.cfg", None)   # longer permissions, PermissionRefreshInterval 12 min
     n = 24 if ctx.tier == "quick" else 300
     ctx.trace_validate("keepalive", "TestKeepAliveTrace", "TraceKeepAlive.tla", "TraceKeepAlive.cfg", n, maxviol=12)
+    if not ctx.violations:   # the TCP allocation: its permissions and the allocation itself stay alive while the application idles
+        relaytcp(ctx)
 
 
 PROPS = {
@@ -278,7 +313,7 @@ PROPS = {
                 run=with_ledger_rt(with_server_trace(core_run(["MC_relay", "MC_relayB", "MC_tcp", "MC_iso", "MC_veto"], ["GEN_relayA", "GEN_relayB", "GEN_relayD", "GEN_v6", "GEN_tcpB", "GEN_iso", "GEN_stream", "GEN_veto"]))),
                 assumptions=BASE_ASSUME + ["the TCP connect target clause is decided on TurnTCP.tla (Connect to a vetoed peer: 403, no connection)"]),
     "C02": dict(title="only authorised peers reach the client", level="model_checking",
-                run=with_ledger_rt(with_server_trace(core_run(["MC_relay", "MC_relayB", "MC_v6", "MC_tcp"], ["GEN_relayA", "GEN_relayB", "GEN_relayD", "GEN_v6", "GEN_tcpA", "GEN_recycle"]))),
+                run=with_relaytcp(with_ledger_rt(with_server_trace(core_run(["MC_relay", "MC_relayB", "MC_v6", "MC_tcp"], ["GEN_relayA", "GEN_relayB", "GEN_relayD", "GEN_v6", "GEN_tcpA", "GEN_recycle"])))),
                 assumptions=BASE_ASSUME + ["the TCP clause (a peer connection is announced only with a live permission for its source IP, else closed silently) is decided on TurnTCP.tla"]),
     "C03": dict(title="state changes only with valid long-term credentials", level="model_checking",
                 run=core_run(["MC_auth", "MC_noauth", "MC_nonce"], ["GEN_auth", "GEN_noauth", "GEN_anon", "GEN_nonce", "GEN_users", "GEN_tcpB"]),
@@ -357,7 +392,7 @@ PROPS = {
                                            "teardown causes: lifetime expiry, Refresh(0), relay socket read error, Server.Close (UDP allocations); control-connection close, bind timeout, either side closing (TCP allocations, via TurnTCP.tla); "
                                            "teardown in the middle of a slow lifecycle callback is covered by the gated schedules of C18, not here"]),
     "C16": dict(title="TCP relay: bind once, by the owner, within 30 s, bytes intact", level="model_checking",
-                run=core_run(["MC_tcp"], ["GEN_tcpA", "GEN_tcpB"]),
+                run=with_relaytcp(core_run(["MC_tcp"], ["GEN_tcpA", "GEN_tcpB"])),
                 assumptions=["control, relayed, peer and data connections are in-memory buffered streams (harness/memstream.go); connection ids are aliased by order of appearance",
                              "bind timeout is the compiled-in 30 s; chunks of 5-64 seeded bytes are written with the system quiescent between them, so arbitrary coalescing is not explored here (C10 covers segmentation of the framing layer)",
                              "after every step the manager and allocation locks are probed (TryLock) and the tcpConnections table is compared with the spec"]),
